@@ -32,7 +32,7 @@ def strategy(multi_bias=True):
         method = draw(st.sampled_from(['nla', 'chic', 'qflag'])) if spec['method'] == 'nla' else draw(st.sampled_from(['chic', 'qflag']))
         mode = draw(st.sampled_from(['single', 'multi', 'multi']))
         run = {'method': method, 'mode': mode, 'no_rejects': draw(st.sampled_from([False, False, True])),
-               'eject_every': draw(st.sampled_from([None, None, 1, 2, 3, 7])),
+               'eject_every': draw(st.sampled_from([None, None, 0, 0, 1, 2, 3, 7])),
                'index_state': draw(st.sampled_from(['fresh', 'fresh', 'fresh', 'missing', 'older', 'older_same_second']))}
         if draw(st.integers(0, 4)) == 0:
             names = [c[0] for c in spec['contigs']]
